@@ -3,4 +3,5 @@ import QV.Prelude
 import QV.Generated.Consts
 import QV.Generated.Tables
 import QV.Properties.C14
+import QV.Properties.C29
 import QV.Properties.C32
